@@ -71,6 +71,33 @@ type letter struct {
 	// Undet: a valid subscribe/start whose DOCUMENT has no determinable operation type
 	// (the real ExecutorV2 reports ast.OperationTypeUnknown and its Execute fails)
 	Undet bool
+	// Trail: a frame that BEGINS with a complete valid message (kind Lead) and carries
+	// something after it; as a whole it is not one JSON document (Kind = non-JSON)
+	Trail bool
+	Lead  string
+}
+
+// trailing content appended to a complete valid message
+var trailSuffixes = []struct{ name, suffix string }{
+	{"stray }", `}`},
+	{"garbage", ` garbage`},
+	{"second message", ""}, // filled per protocol: a complete(1) / stop(1) message
+	{"trailing ,", `,`},
+	{"trailing ]", `]`},
+}
+
+func trailLetters(base []letter, second string) []letter {
+	var out []letter
+	for _, b := range base {
+		for _, t := range trailSuffixes {
+			suf := t.suffix
+			if t.name == "second message" {
+				suf = second
+			}
+			out = append(out, letter{Name: b.Name + "+" + t.name, Kind: kNonJSON, Trail: true, Lead: b.Kind, Raw: b.Raw + suf})
+		}
+	}
+	return out
 }
 
 // undeterminable documents (payload member "query" + optional operationName)
@@ -89,7 +116,33 @@ func undetLetters(verb string) []letter {
 	return out
 }
 
+var alphabetCache = map[proto][]letter{}
+
+// alphabet: the design's letters, then the undeterminable documents, then the
+// trailing-content frames (appended at the end: older letter indices stay valid).
 func alphabet(p proto) []letter {
+	if al, ok := alphabetCache[p]; ok {
+		return al
+	}
+	al := baseAlphabet(p)
+	var valid []letter
+	for _, l := range al {
+		switch l.Name {
+		case "connection_init", "ping", "pong", "subscribe(1,query)", "subscribe(1,subscription)", "complete(1)",
+			"start(1,query)", "start(1,subscription)", "stop(1)", "connection_terminate":
+			valid = append(valid, l)
+		}
+	}
+	second := `{"id":"1","type":"complete"}`
+	if p == protoLegacy {
+		second = `{"id":"1","type":"stop"}`
+	}
+	al = append(al, trailLetters(valid, second)...)
+	alphabetCache[p] = al
+	return al
+}
+
+func baseAlphabet(p proto) []letter {
 	if p == protoTransport {
 		return append([]letter{
 			{Name: "connection_init", Kind: kInit, Raw: `{"type":"connection_init"}`},
@@ -131,6 +184,9 @@ const (
 	envKeepAlive = "keep-alive"   // virtual time advances by one keep-alive interval
 	envReadErr   = "read-error"   // ReadBytesFromClient fails with a non-closing error
 	envReadErrTO = "read-error-timeout"
+	// every read fails from now on (each failed read takes readFailDur of virtual time)
+	// until the handler gives the connection up or readHorizon reads have failed
+	envReadErrPersist = "read-errors-persist"
 )
 
 // token is one step of an execution: a client message (with the way its
@@ -180,7 +236,8 @@ type ev struct {
 	Post  bool   // attempted after the transport was closed (cannot reach the wire)
 	Cause string // what the harness did in the step in which this was recorded
 	Raw   string
-	Msg   int // index of the client message being (or last) delivered, -1 before the first
+	Msg   int    // index of the client message being (or last) delivered, -1 before the first
+	Lead  string // c: kind of the complete valid message a trailing-content frame begins with
 }
 
 func (e ev) String() string {
@@ -240,6 +297,8 @@ const (
 	keepAlive       = 100 * time.Second // CustomKeepAliveInterval
 	readErrTimeOut  = 5 * time.Second   // CustomReadErrorTimeOut
 	drainSleep      = 300 * time.Second
+	readFailDur     = 700137 * time.Microsecond // never coincides with another timer of an execution
+	readHorizon     = 12                        // failed reads in a row after which a still-serving handler is a wedge (> read-error time-out / readFailDur + 1)
 	phaseStep       = time.Millisecond
 	initialHalfStep = 500 * time.Microsecond
 )
@@ -270,6 +329,8 @@ type harness struct {
 	initDelivered  bool
 	readErrArmed   bool      // mirror of the handler's read-error timer: armed by a read error, disarmed by the next successful read
 	readErrElapses time.Time // when the armed timer fires
+	persist        int       // reads that still have to fail in the current burst
+	persistOn      bool
 }
 
 func (h *harness) rec(e ev) {
@@ -296,6 +357,17 @@ func (c *hClient) ReadBytesFromClient() ([]byte, error) {
 	if h.closed {
 		h.mu.Unlock()
 		return nil, subscription.ErrTransportClientClosedConnection
+	}
+	if h.persistOn {
+		if h.persist > 0 {
+			h.persist--
+			h.mu.Unlock()
+			time.Sleep(readFailDur)
+			return nil, errHarnessRead
+		}
+		// explicit horizon: the handler is still reading after readHorizon failed reads
+		h.persistOn = false
+		h.rec(ev{K: "readhorizon"})
 	}
 	h.mu.Unlock()
 	select {
@@ -483,6 +555,7 @@ func (e *stubExec) SetContext(c context.Context) {
 func (e *stubExec) Reset() {}
 
 var errStubExecution = errors.New("stub execution failed")
+var errHarnessRead = errors.New("harness: read error")
 
 func (e *stubExec) Execute(w resolve.SubscriptionResponseWriter) error {
 	h := e.h
@@ -582,15 +655,25 @@ func (h *harness) settle() { synctest.Wait() }
 // advance lets virtual time pass; records the moment the init time-out elapses.
 func (h *harness) advance(d time.Duration) {
 	rel := time.Since(h.start)
+	h.mu.Lock()
+	initAt, readAt := time.Duration(-1), time.Duration(-1)
 	if h.p == protoTransport && !h.crossedT && rel < initTimeOut && rel+d >= initTimeOut {
 		h.crossedT = true
-		h.mu.Lock()
-		h.rec(ev{K: "env", Type: "init-timeout-elapses"})
-		h.mu.Unlock()
+		initAt = initTimeOut
 	}
-	h.mu.Lock()
 	if h.readErrArmed && !time.Now().Add(d).Before(h.readErrElapses) {
 		h.readErrArmed = false
+		readAt = h.readErrElapses.Sub(h.start)
+	}
+	// the markers of the timers that elapse during this sleep, in chronological order
+	if readAt >= 0 && (initAt < 0 || readAt < initAt) {
+		h.rec(ev{K: "env", Type: "read-error-timeout-elapses"})
+		readAt = -1
+	}
+	if initAt >= 0 {
+		h.rec(ev{K: "env", Type: "init-timeout-elapses"})
+	}
+	if readAt >= 0 {
 		h.rec(ev{K: "env", Type: "read-error-timeout-elapses"})
 	}
 	h.mu.Unlock()
@@ -687,7 +770,7 @@ func (h *harness) enabled() []string {
 	if h.initDelivered {
 		out = append(out, envKeepAlive)
 	}
-	out = append(out, envReadErr)
+	out = append(out, envReadErr, envReadErrPersist)
 	if h.readErrArmed {
 		out = append(out, envReadErrTO)
 	}
@@ -779,7 +862,7 @@ func runScenario(sc scenario) *runResult {
 			h.mu.Lock()
 			h.msgIdx++
 			h.cur = l
-			h.rec(ev{K: "c", Type: l.Kind, ID: l.ID, Raw: l.Raw})
+			h.rec(ev{K: "c", Type: l.Kind, ID: l.ID, Raw: l.Raw, Lead: l.Lead})
 			h.mu.Unlock()
 			if !h.deliver(inMsg{data: []byte(l.Raw)}) {
 				// handler is not reading although the transport is open
@@ -831,7 +914,7 @@ func runScenario(sc scenario) *runResult {
 				h.mu.Lock()
 				h.rec(ev{K: "env", Type: envReadErr})
 				h.mu.Unlock()
-				if !h.deliver(inMsg{err: errors.New("harness: read error")}) {
+				if !h.deliver(inMsg{err: errHarnessRead}) {
 					res.Undeliverable = true
 				}
 				h.settle()
@@ -841,6 +924,24 @@ func runScenario(sc scenario) *runResult {
 					h.readErrElapses = time.Now().Add(readErrTimeOut)
 				}
 				h.mu.Unlock()
+			case envReadErrPersist:
+				h.setCause("persistent read errors")
+				h.mu.Lock()
+				h.rec(ev{K: "env", Type: envReadErrPersist})
+				h.persist, h.persistOn = readHorizon-1, true
+				h.mu.Unlock()
+				if !h.deliver(inMsg{err: errHarnessRead}) {
+					res.Undeliverable = true
+				}
+				h.settle()
+				h.mu.Lock()
+				if !h.readErrArmed {
+					h.readErrArmed = true
+					h.readErrElapses = time.Now().Add(readErrTimeOut)
+				}
+				h.mu.Unlock()
+				// whole seconds: the harness stays on its phase grid
+				h.advance(time.Duration(readHorizon) * time.Second)
 			case envReadErrTO:
 				h.setCause("read-error time-out")
 				h.mu.Lock()
